@@ -202,6 +202,28 @@ func resultOrigins(w *World, v ssa.Value) (call *ssa.Call, callee *ssa.Function,
 	return call, callee, vals, len(vals) > 0
 }
 
+// resultReturns is resultOrigins with the return statements kept: for a value that is (an extract of) the result of a
+// call to a module function it yields the callee's (non-recover) returns and, in parallel, the operand each of them
+// returns at the value's result index — for rules whose verdict about a returned operand depends on what is known at
+// the return it leaves by (a guard on the path to that return).
+func resultReturns(w *World, v ssa.Value) (call *ssa.Call, callee *ssa.Function, rets []*ssa.Return, vals []ssa.Value, ok bool) {
+	idx := 0
+	if x, isX := v.(*ssa.Extract); isX {
+		idx = x.Index
+	}
+	call, callee, _, ok = resultOrigins(w, v)
+	if !ok {
+		return nil, nil, nil, nil, false
+	}
+	allInstrs(callee, func(i ssa.Instruction) {
+		if ret, isRet := i.(*ssa.Return); isRet && !isRecoverBlockReturn(ret) && idx < len(ret.Results) {
+			rets = append(rets, ret)
+			vals = append(vals, retVals(ret)[idx])
+		}
+	})
+	return call, callee, rets, vals, len(vals) > 0
+}
+
 // argFor returns the call-site argument bound to parameter p of the callee (nil if p is not a parameter of it).
 func argFor(call *ssa.Call, callee *ssa.Function, p ssa.Value) ssa.Value {
 	for k, q := range callee.Params {
